@@ -91,19 +91,84 @@ def add_attachment_contract():
     k.self_rec = lambda eng, ctx: packet_param(eng, ctx, 'self')
     k.props = ['C01', 'C12']
     k.note = ''
+    # domain of the property: the placeholders of a well-formed binary packet are numbered 0 .. attachment_count-1
+    k.requires = lambda c: {'dom.placeholders-in-range': wf_ph(fv(c, c.vals['self'], 'data'),
+                                                                 c.eng.to_i(c.ctx, fget(c, c.vals['self'], 'attachment_count')))}
     return k
 
 
+is_recon = z3.Function('is_recon', V, V, V, B)     # is_recon(r, d, A): r is the tree d with every placeholder replaced by A[num]
+wf_ph = z3.Function('wf_ph', V, I, B)              # every placeholder of the tree carries an integer num with 0 <= num < n
+_PH, _NUM = smt.atom('_placeholder'), smt.atom('num')
+
+
+def is_ph(d):
+    """the test the wire format prescribes for a placeholder object: {"_placeholder": true, "num": k}"""
+    return z3.And(smt.vhas(d, _PH), smt.truthy(smt.vget(d, _PH)), smt.vhas(d, _NUM))
+
+
+def recon_axioms(d, a):
+    """defining equations of the spec relation is_recon and of wf_ph, instantiated for the tree d (and every result r)"""
+    r = z3.Const('rx_r', V)
+    j = z3.Int('rx_j')
+    n = smt.vlen(a)
+    islist, isdict = smt.kind(d) == smt.K_LIST, smt.kind(d) == smt.K_DICT
+    return {
+        'assume:is_recon-definition': z3.ForAll([r], is_recon(r, d, a) == z3.And(
+            z3.Implies(islist, z3.And(smt.kind(r) == smt.K_LIST, smt.vlen(r) == smt.vlen(d),
+                                      z3.ForAll([j], z3.Implies(z3.And(j >= 0, j < smt.vlen(d)), is_recon(smt.vseq(r)[j], smt.vseq(d)[j], a)),
+                                                patterns=[smt.vseq(r)[j]]))),
+            z3.Implies(z3.And(isdict, is_ph(d)), r == smt.vseq(a)[smt.int_of(smt.vget(d, _NUM))]),
+            z3.Implies(z3.And(isdict, z3.Not(is_ph(d))), z3.And(
+                smt.kind(r) == smt.K_DICT, smt.dlen(r) == smt.dlen(d),
+                z3.ForAll([j], z3.Implies(z3.And(j >= 0, j < smt.dlen(d)),
+                                          z3.And(smt.dkey(r)[j] == smt.dkey(d)[j], is_recon(smt.dval(r)[j], smt.dval(d)[j], a))),
+                          patterns=[smt.dval(r)[j]]))),
+            z3.Implies(z3.Not(z3.Or(islist, isdict)), r == d)), patterns=[is_recon(r, d, a)]),
+        'assume:wf_ph-definition': wf_ph(d, n) == z3.And(
+            z3.Implies(islist, z3.ForAll([j], z3.Implies(z3.And(j >= 0, j < smt.vlen(d)), wf_ph(smt.vseq(d)[j], n)), patterns=[smt.vseq(d)[j]])),
+            z3.Implies(z3.And(isdict, is_ph(d)), z3.And(smt.kind(smt.vget(d, _NUM)) == smt.K_INT, smt.int_of(smt.vget(d, _NUM)) >= 0,
+                                                          smt.int_of(smt.vget(d, _NUM)) < n)),
+            z3.Implies(z3.And(isdict, z3.Not(is_ph(d))),
+                       z3.ForAll([j], z3.Implies(z3.And(j >= 0, j < smt.dlen(d)), wf_ph(smt.dval(d)[j], n)), patterns=[smt.dval(d)[j]]))),
+    }
+
+
+def reconstruct_contract():
+    """_reconstruct_binary_internal against the spec relation is_recon (structural induction: the recursive calls are
+    replaced by this very contract, on the items of the tree).  Requires that the placeholders are in range (wf_ph): that is
+    the well-formed packets of the property; a placeholder out of range raises IndexError in the real code."""
+    def req(c):
+        d = dict(recon_axioms(c.a.data, c.a.attachments))
+        d['attachments-is-a-list'] = smt.kind(c.a.attachments) == smt.K_LIST
+        d['placeholders-in-range'] = wf_ph(c.a.data, smt.vlen(c.a.attachments))
+        return d
+    return Contract(target='packet.Packet._reconstruct_binary_internal', schema=CODEC, self_obj=None,
+                    self_rec=lambda eng, ctx: packet_param(eng, ctx, 'self'),
+                    params={'data': 'V', 'attachments': 'V'}, requires=req,
+                    cases=[Case('rebuilt', result='V',
+                                post=lambda c: {'placeholders-replaced-by-the-attachments': is_recon(c.eng.to_v(c.ctx, c.result), c.a.data, c.a.attachments)})],
+                    modifies=[], props=['C01', 'C12'],
+                    must_fail=lambda c: {'rebuilt:claims-identity': c.eng.to_v(c.ctx, c.result) == c.a.data})
+
+
 def reconstruct_summary():
-    """_reconstruct_binary_internal(data, attachments) as add_attachment sees it (the recursive placeholder functions are
-    covered by the bounded stand-in of the codec check, not proved)"""
+    """_reconstruct_binary_internal as its callers (add_attachment, and its own recursive calls) see it: reconstructed(d, A)
+    names the value the function returns; what is known about it is the postcondition proved by reconstruct_contract()."""
+    def res(c):
+        r = reconstructed(c.a.data, c.a.attachments)
+        c.ctx.assume(is_recon(r, c.a.data, c.a.attachments))
+        return S(r)
     return Contract(target='packet.Packet._reconstruct_binary_internal', schema=CODEC, self_obj=None, params={'data': 'V', 'attachments': 'V'},
-                    cases=[Case('rebuilt', result=lambda c: S(reconstructed(c.a.data, c.a.attachments)))], trusted=True,
-                    note='placeholder substitution: bounded stand-in only')
+                    requires=lambda c: {'attachments-is-a-list': smt.kind(c.a.attachments) == smt.K_LIST,
+                                        'placeholders-in-range': wf_ph(c.a.data, smt.vlen(c.a.attachments))},
+                    cases=[Case('rebuilt', result=res)], trusted=True,
+                    note='proved against the real body in the codec world (C01): reconstruct_contract()')
 
 
 def register(reg):
     reg.add(data_is_binary_contract(), index=False)
     reg.add(init_contract(), index=False)
     reg.add(add_attachment_contract(), index=False)
+    reg.add(reconstruct_contract(), index=False)
     reg.add(reconstruct_summary())
